@@ -1147,6 +1147,56 @@ pub async fn reload_case() -> Result<&'static str, Violation> {
     Ok("switched")
 }
 
+
+// ------------------------------------------------------------------------------------------------
+// C04 over QUIC: the verdict is applied to the peer's address before any request is processed
+// ------------------------------------------------------------------------------------------------
+
+pub async fn cidr_case(which: &str) -> Result<&'static str, Violation> {
+    let case = json!({"kind":"quic-cidr","which":which});
+    let mk = |sig: &str, what: String| Violation::new(format!("C04:quic:{sig}:{which}"), what, case.clone());
+    use trusttunnel::rules::{Rule, RuleAction, RulesConfig};
+    let r = |cidr: &str, deny: bool| Rule { cidr: Some(cidr.into()), client_random_prefix: None, action: if deny { RuleAction::Deny } else { RuleAction::Allow } };
+    let (rules, want_served) = match which {
+        "deny-loopback" => (vec![r("127.0.0.0/8", true)], false),
+        "deny-other-range" => (vec![r("10.0.0.0/8", true)], true),
+        "allow-loopback-then-deny-all" => (vec![r("127.0.0.1/32", false), r("0.0.0.0/0", true)], true),
+        "deny-all-then-allow-loopback" => (vec![r("0.0.0.0/0", true), r("127.0.0.1/32", false)], false),
+        _ => (vec![r("::ffff:127.0.0.0/104", true)], true),
+    };
+    let ep = start(Cfg { rules: Some(RulesConfig { rule: rules }), clients: users(), ..Cfg::default() }).await.map_err(|e| Violation::new("C04:machinery", e, json!({})))?;
+    let mut cl = QuicClient::new(ep.addr, &ClientOpts::default()).map_err(|e| Violation::new("C04:machinery", e, json!({})))?;
+    let established = cl.handshake(Duration::from_secs(3)).await;
+    let mut served = false;
+    if established {
+        if let Ok(id) = cl.request("CONNECT", "_check", None, &[("proxy-authorization".into(), AUTH.into())], false) {
+            served = cl.response(id, Duration::from_secs(2), 4096, None).await.status == Some(200);
+        }
+    }
+    cl.close();
+    match (want_served, served) {
+        (true, false) => Err(mk("allowed-peer-refused", format!("the rules admit 127.0.0.1, the QUIC connection was not served (handshake completed: {established})"))),
+        (false, true) => Err(mk("denied-peer-served", "the rules deny 127.0.0.1, a request on the QUIC connection was processed".into())),
+        (true, true) => Ok("served"),
+        (false, false) => Ok("refused"),
+    }
+}
+
+pub fn c04_into(rep: &mut Report) {
+    let all = ["deny-loopback", "deny-other-range", "allow-loopback-then-deny-all", "deny-all-then-allow-loopback"];
+    let mut classes = vec![];
+    for w in all {
+        match super::guarded(|| run_blocking(cidr_case(w))) {
+            Ok(Ok(c)) => classes.push(format!("{w}:{c}")),
+            Ok(Err(v)) => rep.violation(v),
+            Err(p) => rep.violation(Violation::new("C04:quic:panic", p, json!({"kind":"quic-cidr","which":w}))),
+        }
+    }
+    rep.add("evaluations", all.len() as u64);
+    rep.sub.push(json!({"sub":"quic-cidr-rules","cases":all.len(),"classes":classes,
+        "what":"QUIC connections from 127.0.0.1 under 4 rule lists (deny loopback, deny another range, allow-then-deny-all, deny-all-then-allow): no request is processed on a denied connection, an admitted one is served"}));
+}
+
 // ------------------------------------------------------------------------------------------------
 // drivers
 // ------------------------------------------------------------------------------------------------
@@ -1375,6 +1425,10 @@ pub fn replay(case: &serde_json::Value) -> Option<Result<(), Violation>> {
         "quic-random" => serde_json::from_value::<RandomCase>(case["case"].clone()).map_err(|_| bad()).and_then(|c| run_blocking(random_case(&c)).map(|_| ())),
         "quic-cert" => run_blocking(cert_case(case["sni"].as_str().unwrap_or("m.t"))).map(|_| ()),
         "quic-reload" => run_blocking(reload_case()).map(|_| ()),
+        "quic-cidr" => {
+            let w = ["deny-loopback", "deny-other-range", "allow-loopback-then-deny-all", "deny-all-then-allow-loopback", "deny-mapped-form-only"].into_iter().find(|x| Some(*x) == case["which"].as_str()).unwrap_or("deny-loopback");
+            run_blocking(cidr_case(w)).map(|_| ())
+        }
         "quic-auth" => {
             let h = ["valid", "wrong", "other-scheme", "absent"].into_iter().find(|x| Some(*x) == case["header"].as_str()).unwrap_or("absent");
             let t = if case["target"].as_str() == Some("connect") { "connect" } else { "check" };
